@@ -3,7 +3,7 @@ import ast
 import z3
 from pyvc.unit import Unit, NotGenerated, find_def, segment_sha, module_source
 from pyvc.tables import Gen
-from .c_ignore import _skip_findall, g_skip
+from .c_ignore import _skip_findall, _skip_search, g_skip
 
 
 def slice_prefix(fn):
@@ -20,7 +20,8 @@ format_code_prefix = Unit(
     ensures=[("skip-file-returns-at-once", "implies(skips(old(source)), defined('result') and result == old(source))"),
              ("only-valid-python-reaches-the-rules", "implies(not defined('result'), core.is_valid_python(source))"),
              ("invalid-input-is-handed-back", "implies(defined('result') and not skips(old(source)), result == source)")],
-    calls={"re.findall": _skip_findall, "core.is_valid_python": ("uf", "bool"), "rmspace.format_str": ("uf", "str"), "fixes.fix_too_many_blank_lines": ("uf", "str"),
+    calls={"re.findall": _skip_findall, "re.search": _skip_search, "core.is_valid_python": ("uf", "bool"), "rmspace.format_str": ("uf", "str"), "fixes.fix_too_many_blank_lines": ("uf", "str"),
+           "processing.keep_syntax_tree": ("uf", "str"), "_keep_ignored_lines": ("uf", "str"),
            "textwrap.dedent": ("uf", "str"), "formatting.indentation_level": ("uf", "int")}, ghost={"skips": g_skip},
     lenient=True, props=("C04", "C20"), covers=False,
 )
